@@ -92,6 +92,10 @@ PyObject* py_dt(PyObject* self, PyObject* args) {
         PyErr_SetString(PyExc_RuntimeError, "_distance only implemented for arrays of at least 1 dimension.");
         goto exit;
     }
+    if (size == 0) {
+        // nothing to transform (and no line length to divide by)
+        goto exit;
+    }
     try {
         for (int k = 0; k != ndims; ++k) {
             npy_intp cur = PyArray_DIM(f, k);
